@@ -133,6 +133,16 @@ func C16(ctx *Ctx) {
 											cp = true
 										}
 									}
+									// ... or by appending the ranged value to the fresh (empty) slice
+									if c.Kind == "append" && len(c.Args) == 2 {
+										d, _ := c.Args[0].(*absint.Slice)
+										sr, _ := c.Args[1].(*absint.Slice)
+										if d != nil && sr != nil && d.Base.Obj == sl.Base.Obj && strings.Contains(absint.ValKey(sr), "a."+fname+")") {
+											if l, isC := d.Len.IsConst(); isC && l == 0 {
+												cp = true
+											}
+										}
+									}
 								}
 								if !cp {
 									aliased = "not filled by copy from the source's slice"
@@ -294,6 +304,15 @@ func C16(ctx *Ctx) {
 			for _, c := range copies {
 				if r, ok := c.Result.(*absint.Int); ok && fi != nil && o.Add(an, r).Lin.Key() == fi.Lin.Key() {
 					okn = true
+				}
+				// n += e.n is n += copied count where the capacity guard in force makes the
+				// copy complete (the source fits in what is left of the destination)
+				if src, ok := c.Args[1].(*absint.Slice); ok && fi != nil && src.Len != nil && o.Add(an, o.Convert(src.Len, an.W, true, an.Signed)).Lin.Key() == fi.Lin.Key() {
+					for _, g := range c.PathL {
+						if acc, is := capacityGuard(g, cs); is && acc {
+							okn = true
+						}
+					}
 				}
 			}
 			if !okn {
